@@ -166,6 +166,82 @@ fn eval_old_format(layout: &[Vec<u8>]) -> Result<(Option<Found>, u64), String> {
     Ok((None, cases))
 }
 
+/// The same layout written through the repository's LOCAL-FILESYSTEM WAL store into a scratch directory (one rotator
+/// life per file), then read back by a new store object and a new rotator on that directory (a restart): all entries
+/// in order; then every truncation length of the last file (a torn tail on disk): the surviving prefix of that file,
+/// everything of the others.
+fn eval_local_store(layout: &[Vec<u8>], with_truncations: bool) -> Result<(Option<Found>, u64), String> {
+    use redis_sim::streaming::wal_store::LocalWalStore;
+    static SERIAL: std::sync::atomic::AtomicU64 = std::sync::atomic::AtomicU64::new(0);
+    let dir = std::env::temp_dir().join(format!("verif-c10-{}-{}", std::process::id(), SERIAL.fetch_add(1, std::sync::atomic::Ordering::Relaxed)));
+    let _ = std::fs::remove_dir_all(&dir);
+    let res = (|| -> Result<(Option<Found>, u64), String> {
+        let store = LocalWalStore::new(dir.clone()).map_err(|e| format!("local store: {e}"))?;
+        let mut expected: Vec<Vec<(u64, Vec<u8>)>> = Vec::new();
+        for (fi, sizes) in layout.iter().enumerate() {
+            let mut rot = WalRotator::new(store.clone(), BIG).map_err(|e| format!("rotator: {e}"))?;
+            let mut es = Vec::new();
+            for (ei, sk) in sizes.iter().enumerate() {
+                let d = payload_delta(*sk, fi, ei);
+                let e = WalEntry::from_delta(&d, stamp_of(fi, ei)).map_err(|e| format!("from_delta: {e}"))?;
+                rot.append(&e).map_err(|e| format!("append: {e}"))?;
+                es.push((e.timestamp, e.data.clone()));
+            }
+            rot.sync().map_err(|e| format!("sync: {e}"))?;
+            expected.push(es);
+        }
+        let mk = |what: &str, detail: String| Found {
+            sig: format!("local-filesystem store: {what}"),
+            detail: format!("layout {:?} written through LocalWalStore and read back after a restart: {detail}", layout),
+            replay: json!({"part": "local-store", "layout": layout, "with_truncations": with_truncations}),
+        };
+        let read = || -> Result<Vec<(u64, Vec<u8>)>, String> {
+            let st = LocalWalStore::new(dir.clone()).map_err(|e| format!("reopen: {e}"))?;
+            let rot = WalRotator::new(st, BIG).map_err(|e| format!("rotator over the directory: {e}"))?;
+            Ok(rot.recover_all_entries().map_err(|e| format!("recover_all_entries: {e}"))?.iter().map(|e| (e.timestamp, e.data.clone())).collect())
+        };
+        let mut cases = 1u64;
+        let all: Vec<(u64, Vec<u8>)> = expected.iter().flatten().cloned().collect();
+        match read() {
+            Err(e) => return Ok((Some(mk("recover-error", e)), cases)),
+            Ok(got) if got != all => return Ok((Some(mk("entries-differ", format!("{} entries recovered, {} appended (or contents / order differ)", got.len(), all.len()))), cases)),
+            _ => {}
+        }
+        if with_truncations {
+            let names = store.list().map_err(|e| format!("list: {e}"))?;
+            let mut names = names;
+            names.sort();
+            let last = names.last().cloned().ok_or("no files")?;
+            let path = dir.join(&last);
+            let full = std::fs::read(&path).map_err(|e| e.to_string())?;
+            let others: Vec<(u64, Vec<u8>)> = expected[..expected.len() - 1].iter().flatten().cloned().collect();
+            let last_entries = expected.last().unwrap();
+            for len in 0..full.len() {
+                std::fs::write(&path, &full[..len]).map_err(|e| e.to_string())?;
+                cases += 1;
+                // entries of the last file that are complete within `len`
+                let mut keep = Vec::new();
+                let mut off = WAL_HEADER_SIZE;
+                for (st, data) in last_entries {
+                    off += WAL_ENTRY_OVERHEAD + data.len();
+                    if off <= len {
+                        keep.push((*st, data.clone()));
+                    }
+                }
+                let want: Vec<(u64, Vec<u8>)> = others.iter().cloned().chain(keep).collect();
+                match read() {
+                    Err(e) => return Ok((Some(mk("recover-error-on-torn-tail", format!("last file cut to {len} of {} bytes: {e}", full.len()))), cases)),
+                    Ok(got) if got != want => return Ok((Some(mk("torn-tail", format!("last file cut to {len} of {} bytes: {} entries recovered, {} expected", full.len(), got.len(), want.len()))), cases)),
+                    _ => {}
+                }
+            }
+        }
+        Ok((None, cases))
+    })();
+    let _ = std::fs::remove_dir_all(&dir);
+    res
+}
+
 fn regions(f: &FileImg) -> imgx::Regions {
     let mut r: imgx::Regions = vec![
         ("file.magic", 0, 4),
@@ -629,6 +705,13 @@ fn replay(path: &std::path::Path) -> ! {
             let regs = regions(&img.files[m]);
             eval_mutation(&img, &rot, &layout, m, mu, &th, &regs, &mut st)
         }
+        Some("local-store") => match eval_local_store(&parse_layout_u8(&r["layout"]), r["with_truncations"].as_bool().unwrap_or(false)) {
+            Ok((f, _)) => f,
+            Err(e) => {
+                eprintln!("harness: {e}");
+                std::process::exit(2)
+            }
+        },
         Some("old-format") => match eval_old_format(&parse_layout_u8(&r["layout"])) {
             Ok((f, _)) => f,
             Err(e) => {
@@ -766,6 +849,24 @@ fn main() {
         }
     }
 
+    // ---- part 4: the local-filesystem store ---------------------------------------------
+    let mut local_layouts: Vec<(Vec<Vec<u8>>, bool)> = layouts(1, 3).into_iter().map(|l| (l, false)).collect();
+    local_layouts.extend(layouts(2, 2).into_iter().map(|l| (l, false)));
+    local_layouts.extend([vec![vec![0u8, 1]], vec![vec![1u8], vec![0, 2]], vec![vec![2u8, 0], vec![1], vec![0, 0]]].into_iter().map(|l| (l, true)));
+    let lres = par::par_map(&local_layouts, |_, (l, t)| eval_local_store(l, *t));
+    let mut local_cases = 0u64;
+    for (r, (l, _)) in lres.into_iter().zip(&local_layouts) {
+        match r {
+            Ok((f, n)) => {
+                local_cases += n;
+                if let Some(f) = f {
+                    rep.violation(f.sig, f.detail, f.replay);
+                }
+            }
+            Err(e) => rep.machinery_failure(&format!("local-store case {:?}: {e}", l)),
+        }
+    }
+
     let sample_layout = vec![vec![0u8, 2], vec![1]];
     let sample_img = build_image(&sample_layout).ok();
     let samples = json!([
@@ -792,6 +893,8 @@ fn main() {
         "damage_bounds": if thorough { "1 file: 39 sequences; 2 files: 39^2; 3 files: 39^3 (sequences of 1..3 entries over 3 payload kinds)" } else { "1 file: 39 sequences of 1..3 entries; 2 files: 12^2 (sequences of 1..2 entries); 3 files: 3^3 (1 entry each); 3 payload kinds" },
         "distinct_outcome_classes": outcome_count,
         "outcomes_by_mutation_and_region": stats.table(),
+        "local_filesystem_store_cases": local_cases,
+        "local_filesystem_store_rule": "layouts of the quick damage set written through the repository's LocalWalStore into a scratch directory and read back by a new store and rotator on that directory; for three layouts also every truncation length of the last file on disk",
         "previous_format_cases": old_cases,
         "previous_format_rule": "every image of the quick damage set with every non-empty subset of its files rewritten in on-disk format version 1 (entry checksum over the payload only), which the reader promises to keep reading: recover_all_entries and recover_entries_after(0) must return exactly what they return for the version-2 image",
         "truncation_cases": twork.len(),
